@@ -1,5 +1,6 @@
 import Gallia.Model.Randomize
 import Gallia.Proofs.Lemmas.Randomize
+import Gallia.Proofs.Lemmas.RandomizeDict
 import Gallia.Gen.C16Tables
 /-
   C16 — a random virtual ECU is fully determined by its seed and arguments; its model is well-formed.
@@ -101,6 +102,25 @@ theorem nothing_invented :
   · intro k v hkv
     obtain ⟨hk, j, rfl⟩ := svcMapOf_entry tb p o.draw _ s i hkv
     exact ⟨hk, subFns_isSome_iff tb o.draw j _ k⟩
+
+/-- the result is a well-formed dict of dicts, whatever the draws: sessions strictly ascending (so unique), service
+    keys unique per session, every DiagnosticSessionControl list strictly ascending (= `sorted(set)`, no duplicates).
+    Lookups by key are therefore unambiguous (used by the server models of C13 / C14). -/
+theorem model_is_dict (htb : tb.WF) :
+    ((randomizeGen tb p o).model.map (·.1)).Pairwise (· < ·) ∧
+    ∀ s sm, (s, sm) ∈ (randomizeGen tb p o).model →
+      (sm.map (·.1)).Nodup ∧ ∀ l, (tb.dsc, some l) ∈ sm → l.Pairwise (· < ·) := by
+  refine ⟨?_, ?_⟩
+  · rw [model_keys]
+    exact List.Pairwise.filter _ List.pairwise_lt_range
+  · intro s sm hm
+    obtain ⟨_, _, i, rfl⟩ := model_mem tb p o hm
+    refine ⟨svcMapOf_nodup tb p o.draw _ s i, ?_⟩
+    intro l hl
+    have := svcMapOf_dsc_value htb p o.draw _ s i hl
+    simp at this
+    rw [this]
+    exact transitions_sorted p o s
 
 /-! ### the function of DESIGN section 7 (`isoTables`, Boolean stream) -/
 
